@@ -840,6 +840,9 @@ struct Frame {
     sleep: Vec<(usize, String)>,
     /// indices already explored from this node (before `chosen`)
     done: Vec<usize>,
+    /// preemptions spent before this node, and the thread that ran last
+    pre: usize,
+    last: Option<usize>,
 }
 
 #[derive(Default, Clone, Debug)]
@@ -937,6 +940,7 @@ impl Dfs {
         if self.forced.is_some() {
             return false;
         }
+        let bound = self.preempt_bound;
         while let Some(top) = self.stack.last_mut() {
             let cur = top.chosen;
             top.done.push(cur);
@@ -951,6 +955,16 @@ impl Dfs {
                 let (t, l, _) = &top.enabled[i];
                 if top.sleep.iter().any(|(st, sl)| st == t && sl == l) {
                     continue;
+                }
+                if let Some(b) = bound {
+                    // switching away from a still-enabled thread costs one preemption
+                    let cost = match top.last {
+                        Some(lt) => (*t != lt && top.enabled.iter().any(|x| x.0 == lt)) as usize,
+                        None => 0,
+                    };
+                    if top.pre + cost > b {
+                        continue;
+                    }
                 }
                 next = Some(i);
                 break;
@@ -1028,7 +1042,7 @@ impl Chooser for Dfs {
                 },
                 None => 0,
             };
-            self.stack.push(Frame { enabled: cur.clone(), chosen: i, sleep: vec![], done: vec![] });
+            self.stack.push(Frame { enabled: cur.clone(), chosen: i, sleep: vec![], done: vec![], pre: self.preemptions, last: self.last_tid });
             idx = i;
         } else {
             // new node: inherit the sleep set from the parent
@@ -1055,7 +1069,15 @@ impl Chooser for Dfs {
                 }
             };
             let mut pick = None;
-            for (i, c) in cur.iter().enumerate() {
+            let mut order: Vec<usize> = (0..cur.len()).collect();
+            if self.preempt_bound.is_some() {
+                // under a preemption bound the default is to let the running thread go on
+                if let Some(lt) = self.last_tid {
+                    order.sort_by_key(|i| cur[*i].0 != lt);
+                }
+            }
+            for i in order {
+                let c = &cur[i];
                 if sleep.iter().any(|(t, l)| *t == c.0 && l == &c.1) {
                     continue;
                 }
@@ -1074,7 +1096,7 @@ impl Chooser for Dfs {
                 self.blocked_now = true;
                 return None;
             };
-            self.stack.push(Frame { enabled: cur.clone(), chosen: i, sleep, done: vec![] });
+            self.stack.push(Frame { enabled: cur.clone(), chosen: i, sleep, done: vec![], pre: self.preemptions, last: self.last_tid });
             idx = i;
         }
         let e = &enabled[idx];
